@@ -407,10 +407,32 @@ def main(prop):
     results = run_cases(prop, cases, with_model=b.driver_ok and prop.use_driver)
 
     infra = [r for r in results if r['err']]
+    unevaluable = []
     if infra:
-        print('INFRASTRUCTURE ERROR in %d cases; first:\n%s' % (len(infra), infra[0]['err']))
-        json.dump({'case': infra[0]['case'], 'err': infra[0]['err']}, open(os.path.join(VERIF, 'replays', prop.id + '-infra.json'), 'w'), indent=1, default=str)
-        sys.exit(2)
+        # A scenario or its judge raised. On the unchanged tree every scenario runs to completion, so a *reproducible* exception means
+        # the code under test no longer behaves the way the correspondence run relies on (an attribute it reads is gone, a call returns
+        # None, ...): the tie is broken on these inputs. Anything else (driver failure, a one-off) is an infrastructure error.
+        reproducible = True
+        for r in infra[:3]:
+            e = str(r['err'])
+            if not e.startswith('harness error') or ' driver: ' in e:
+                reproducible = False
+                break
+            obs2, err2, hang2 = guarded_run_impl(prop, r['case'])
+            if e.startswith('harness error in judge'):
+                if err2 is not None or hang2:
+                    reproducible = False
+                    break
+            elif err2 is None:
+                reproducible = False
+                break
+        if not reproducible:
+            print('INFRASTRUCTURE ERROR in %d cases; first:\n%s' % (len(infra), infra[0]['err']))
+            os.makedirs(os.path.join(VERIF, 'replays'), exist_ok=True)
+            json.dump({'case': infra[0]['case'], 'err': infra[0]['err']}, open(os.path.join(VERIF, 'replays', prop.id + '-infra.json'), 'w'), indent=1, default=str)
+            sys.exit(2)
+        unevaluable = infra
+        results = [r for r in results if not r['err']]
 
     known = load_known()
     known_sigs = {(k['property'], k['signature']): k for k in known.get('findings', [])}
@@ -420,6 +442,10 @@ def main(prop):
     if mismatches:
         broken.append('correspondence %s: implementation and Lean model differ on %d of %d cases' % (
             prop.id, len(mismatches), len(results)))
+    if unevaluable:
+        first_line = [x for x in str(unevaluable[0]['err']).splitlines() if x.strip()][0][:300]
+        broken.append('correspondence %s: the scenario cannot be evaluated on %d of %d cases (it completes on the unchanged tree; now: %s)' % (
+            prop.id, len(unevaluable), len(results) + len(unevaluable), first_line))
 
     searched = 0
     if broken and not [1 for (r, o) in oracle_fail if (prop.id, o['signature']) not in known_sigs]:
@@ -478,6 +504,8 @@ def main(prop):
         if mismatches:
             m = mismatches[0]
             sample = {'case': m['case'], 'implementation': m['obs'], 'model': m.get('answers'), 'difference': m['mismatch']}
+        if sample is None and unevaluable:
+            sample = {'case': unevaluable[0]['case'], 'scenario_raised': str(unevaluable[0]['err'])[-2500:]}
         path = write_replay(prop.id, {'property': prop.id, 'kind': 'no-failing-input-found', 'broken': broken,
                                       'sample_difference': sample, 'searched_cases': len(results) + searched,
                                       'build_log_tail': b.log[-3000:] if not b.proofs_ok or not b.driver_ok else ''})
